@@ -369,9 +369,69 @@ func (res *CheckResult) checkExpression(lit parser.ValueExpr, requiredType strin
 	case *parser.StringLiteral:
 		res.assertHasType(lit, requiredType, TypeString)
 	case *parser.BinaryInfix:
-		res.checkExpression(lit.Left, TypeAny)
-		res.checkExpression(lit.Right, TypeAny)
+		// "+" and "-" take two numbers or two monetaries, and yield the same type
+		operandsType := res.infixOperandsType(lit, requiredType)
+		if operandsType == "" {
+			res.checkExpression(lit.Left, TypeAny)
+			res.checkExpression(lit.Right, TypeAny)
+			return
+		}
+		res.checkExpression(lit.Left, operandsType)
+		res.checkExpression(lit.Right, operandsType)
+		res.assertHasType(lit, requiredType, operandsType)
 	}
+}
+
+// The static type of an expression, or "" when it cannot be told
+// (e.g. an undeclared variable or a variable with an invalid type)
+func (res *CheckResult) typeOfExpression(lit parser.ValueExpr) string {
+	switch lit := lit.(type) {
+	case *parser.Variable:
+		decl, ok := res.declaredVars[lit.Name]
+		if !ok || decl.Type == nil || !isTypeAllowed(decl.Type.Name) {
+			return ""
+		}
+		return decl.Type.Name
+	case *parser.MonetaryLiteral:
+		return TypeMonetary
+	case *parser.AccountLiteral:
+		return TypeAccount
+	case *parser.RatioLiteral:
+		return TypePortion
+	case *parser.AssetLiteral:
+		return TypeAsset
+	case *parser.NumberLiteral:
+		return TypeNumber
+	case *parser.StringLiteral:
+		return TypeString
+	case *parser.BinaryInfix:
+		return res.infixOperandsType(lit, TypeAny)
+	default:
+		return ""
+	}
+}
+
+// The type both operands of an infix expression must have
+// ("" when neither operand tells)
+func (res *CheckResult) infixOperandsType(lit *parser.BinaryInfix, requiredType string) string {
+	isNumeric := func(t string) bool { return t == TypeNumber || t == TypeMonetary }
+
+	left := res.typeOfExpression(lit.Left)
+	if isNumeric(left) {
+		return left
+	}
+	right := res.typeOfExpression(lit.Right)
+	if isNumeric(right) {
+		return right
+	}
+	if left == "" && right == "" {
+		return ""
+	}
+	// neither operand is a number or a monetary
+	if isNumeric(requiredType) {
+		return requiredType
+	}
+	return TypeNumber
 }
 
 func (res *CheckResult) assertHasType(lit parser.ValueExpr, requiredType string, actualType string) {
